@@ -12,5 +12,6 @@ INVARIANTS
   PInvUnambiguous
   PInvUnambiguousPairs
   PInvUnambiguousLookAlikes
+  PInvNearMisses
 POSTCONDITION PEmit
 CHECK_DEADLOCK FALSE
